@@ -214,7 +214,7 @@ def coq_eval(name, header, case_terms, per_file=150, timeout=900, ty="case"):
             f.write(header + "\n")
             f.write(f"Definition cases : list {ty} := [\n" + ";\n".join(sh_terms) + "\n].\n")
             f.write("Definition failing := filter (fun p => negb (match snd p with [] => true | _ => false end))\n"
-                    "  (combine (map N.of_nat (seq 0 (length cases))) (map (fun c => map N.of_nat (check_case c)) cases)).\n")
+                    "  (combine (map N.of_nat (seq 0 (List.length cases))) (map (fun c => map N.of_nat (check_case c)) cases)).\n")
             f.write("Eval vm_compute in failing.\n")
         paths.append(p)
 
